@@ -79,6 +79,11 @@ func (ss *session) eval(src string, maxDur time.Duration) (res runOut) {
 	}
 	obj := ss.s.EvalToplevel(node)
 	res.printed = ss.out.String()
+	if ss.s.Context != nil && ss.s.Context.Err() != nil {
+		// the deadline expired while it ran: whatever came out (the deadline error may have been turned into another
+		// error or a value on its way up) decides nothing
+		res.timedOut = true
+	}
 	if obj.Type() == object.ERROR {
 		res.isErr = true
 		res.errMsg = obj.(object.Error).Value
